@@ -151,6 +151,10 @@ fn prep_exec(r: &mut Rng, id: u32, cols: Vec<ColSpec>, prog: Program) -> Vec<Cmd
 }
 
 fn gen_c07(r: &mut Rng, _t: Tier, job: u64) -> Plan {
+    if job % 25_000 == 12_345 {
+        // a row of exactly two or three full packets (the terminating empty packet is owed)
+        return super::props3::gen_c04_binary_exact_multiple(r);
+    }
     if job % 12 == 7 {
         // integers of every Rust type into integer columns of every width and signedness,
         // including combinations the encoder has to refuse (same width, opposite sign): a value
